@@ -213,6 +213,8 @@ class Walker:
                 post = View(seq)
                 self._update_phase_model(op, pre, post)
                 self._resolve_drift(pre_refs)
+                if "TARGETS" in self.props:
+                    self.check_targets(op, post)
                 if "C01" in self.props:
                     self.check_c01(op, pre, post)
                 if "C15" in self.props:
@@ -259,6 +261,24 @@ class Walker:
         if "ch" in op:
             return self.it.chan(op["ch"])
         return None
+
+    def check_targets(self, op, post: View):
+        """After a successful target() / target_index() the channel addresses exactly the atoms that
+        were asked for (judged from the call, not from the slot the tree wrote)."""
+        if op["op"] not in ("target", "target_index") or post.parametrized:
+            return
+        name = self._op_channel(op)
+        if name is None or name not in post.ch:
+            return
+        qs = op.get("qubits")
+        if not isinstance(qs, (list, tuple)) or any(isinstance(q, dict) for q in qs):
+            return
+        want = {self.it.qubit(q) for q in qs}
+        got = set(post.ch[name].slots[-1][3]) if post.ch[name].slots else set()
+        if {str(x) for x in got} != {str(x) for x in want}:
+            self.ctx.fail("C06.atom", "targets_after_retarget",
+                          f"{op['op']}({sorted(map(str, want))}) on {name!r} succeeded; the channel now addresses "
+                          f"{sorted(map(str, got))}")
 
     # ------------------------------------------------------------------ M3
     def _update_phase_model(self, op, pre: View, post: View):
